@@ -1,5 +1,6 @@
 /* C11 (1b) - the reader cdb_seek() (REAL cdb_seek.c, cdb_hash.c, cdb_unpack.c) over a file
- * that is served by read()/lseek() stubs.
+ * that is served by stubs.  In MODE 0/1 cdb_bread() is cut and replaced by the contract
+ * that MODE 2 proves on the real cdb_bread (exactly len bytes, or -1).
  *
  * MODE 0 - well-formed database, specified from the cdb format description (cdb.3 and the
  *   format text it refers to): 256 (position,length) header entries; records
@@ -12,10 +13,13 @@
  *   bytes, duplicates and same-bucket collisions included; either order of the two tables).
  *   Claim (cdb.3): cdb_seek returns 1 iff the key is present, then *dlen is the data length
  *   of the FIRST record with that key and the descriptor points at its data; 0 iff absent;
- *   -1 only after a read/lseek error.  Reads are complete or short (3 bytes per call).
+ *   -1 only after a read/lseek error.  (Short reads: MODE 2.)
  * MODE 1 - corrupt / truncated file: read() serves NB arbitrary bytes (whatever position
  *   was asked for) and then EOF, lseek may fail: cdb_seek returns -1, 0 or 1 and touches no
- *   memory outside its buffers and the key (key block exactly QL bytes). */
+ *   memory outside its buffers and the key (key block exactly QL bytes).
+ * MODE 2 - cdb_bread(fd,buf,len), len 0..8, read() returning short counts, EINTR, EOF or an
+ *   error from a tape: returns 0 with exactly the next len bytes in buf, or -1 (EOF counts
+ *   as an error: the database is truncated). */
 #include "verif.h"
 #include <errno.h>
 #include <sys/types.h>
@@ -41,7 +45,6 @@ unsigned int rklen[2], rdlen[2];
 unsigned char qkey[QMAX]; unsigned int qlen;
 unsigned int order;              /* which of two tables comes first in the file */
 uint32 epos;                     /* position field of empty buckets: arbitrary */
-unsigned int chunk;              /* read() returns at most this many bytes per call */
 unsigned int fail_at;            /* the fail_at-th read/lseek call fails (0 = none) */
 
 static uint32 rh[2], rp[2], recs_end, file_end;
@@ -56,7 +59,7 @@ void sym_inputs(void)
 #include "replay_inputs.inc"
 #else
   SYM_ARR(rkey[0]); SYM_ARR(rkey[1]); SYM_ARR(rdata[0]); SYM_ARR(rdata[1]); SYM_ARR(rklen); SYM_ARR(rdlen);
-  SYM_ARR(qkey); SYM(qlen); SYM(order); SYM(epos); SYM(chunk); SYM(fail_at);
+  SYM_ARR(qkey); SYM(qlen); SYM(order); SYM(epos); SYM(fail_at);
 #endif
 }
 
@@ -107,18 +110,21 @@ static int inject(void)
   return 0;
 }
 
-ssize_t vf_read(int fd, void *buf, size_t len)
+/* cdb_bread is cut out of cdb_seek.c here and replaced by its contract (proved on the real
+ * code in MODE 2): exactly len bytes, or -1 */
+int cdb_bread(int fd, char *buf, int len)
 {
-  unsigned int i, n;
+  int i;
   CHECK(fd == FD, "cdb_seek reads the database descriptor");
+  CHECK(len >= 0 && len <= 32, "cdb_seek reads 8 bytes or at most 32 key bytes at a time");
   if (inject()) return -1;
-  n = chunk < len ? chunk : (unsigned int) len;
+  CHECK(curpos <= file_end && (uint32) len <= file_end - curpos, "C11(1b): on a well-formed database the reader never reads beyond the end of the file");
+  ASSUME(curpos <= file_end && (uint32) len <= file_end - curpos);
   for (i = 0; i < 32; ++i) {
-    if (i >= n) break;
-    if (curpos >= file_end) break;
-    ((unsigned char *) buf)[i] = file_byte(curpos); ++curpos;
+    if (i >= len) break;
+    buf[i] = (char) file_byte(curpos); ++curpos;         /* a write outside the caller's buffer is a cbmc/ASan failure */
   }
-  return (ssize_t) i;
+  return 0;
 }
 
 off_t vf_lseek(int fd, off_t off, int whence)
@@ -143,7 +149,7 @@ void vmain(void)
   uint32 dlen = 0xdeadbeef;
   int r, want = -1;
   sym_inputs();
-  ASSUME(qlen <= QMAX && (chunk == 3 || chunk >= 8) && order <= 1);     /* reads are complete, or short (3 bytes at a time) */
+  ASSUME(qlen <= QMAX && order <= 1);
   for (i = 0; i < R; ++i) ASSUME(rklen[i] <= KL && rdlen[i] <= DL);
   /* ---- lay the database out as the format prescribes */
   rp[0] = 2048; recs_end = 2048;
@@ -197,6 +203,62 @@ void vmain(void)
   }
 }
 
+#elif MODE == 2 /* ------------------------------------------------------- MODE 2: cdb_bread */
+#define LMAX 8
+#define TAPE (LMAX + 3)
+unsigned char src[LMAX];
+unsigned int want_len, avail;      /* bytes asked for; bytes the file still has */
+unsigned char tape[TAPE];          /* per read: 0 EINTR, 255 error, k: min(k,len,available) bytes (0 at EOF) */
+static unsigned int ncalls, srcpos, harderr, eof;
+
+void sym_inputs(void)
+{
+#ifdef REPLAY
+#include "replay_inputs.inc"
+#else
+  SYM_ARR(src); SYM(want_len); SYM(avail); SYM_ARR(tape);
+#endif
+}
+
+ssize_t vf_read(int fd, void *buf, size_t len)
+{
+  unsigned int t, w, i;
+  CHECK(fd == FD, "cdb_bread reads the descriptor it was given");
+  CHECK(ncalls < TAPE, "tape long enough (harness sizing)");
+  ASSUME(ncalls < TAPE);
+  t = tape[ncalls++];
+  if (t == 0) { errno = EINTR; return -1; }
+  if (t == 255) { harderr = 1; errno = EIO; return -1; }
+  if (srcpos >= avail) { eof = 1; return 0; }
+  w = t; if (w > len) w = (unsigned int) len; if (w > avail - srcpos) w = avail - srcpos;
+  for (i = 0; i < LMAX; ++i) { if (i >= w) break; ((unsigned char *) buf)[i] = src[srcpos++]; }
+  return (ssize_t) w;
+}
+off_t vf_lseek(int fd, off_t off, int whence) { return off; }
+
+void vmain(void)
+{
+  char dst[LMAX];
+  unsigned int i, nz = 0;
+  int r;
+  sym_inputs();
+  ASSUME(want_len <= LMAX && avail <= LMAX);
+  for (i = 0; i < TAPE; ++i) if (tape[i] == 0) ++nz;
+  ASSUME(nz <= 1);
+  r = cdb_bread(FD, dst + (LMAX - want_len), (int) want_len);       /* destination ends at the end of dst */
+  CHECK(r == 0 || r == -1, "C11(1b): cdb_bread returns 0 or -1");
+  if (r == 0) {
+    CHECK(srcpos == want_len, "C11(1b): cdb_bread consumes exactly len bytes");
+    for (i = 0; i < LMAX; ++i) { if (i >= want_len) break; CHECK((unsigned char) dst[LMAX - want_len + i] == src[i], "C11(1b): cdb_bread delivers the file's bytes in order"); }
+    if (ncalls >= 3 && nz == 1) WITNESS("assembled_from_short_reads_and_eintr");
+    WITNESS("complete");
+  } else {
+    CHECK(harderr || eof, "C11(1b): -1 only after a read error or a premature end of file");
+    if (eof) { CHECK(errno == EIO, "truncated database is reported as EIO"); WITNESS("truncated"); }
+    if (harderr) WITNESS("read_error");
+  }
+}
+
 #else /* ------------------------------------------------------------ MODE 1: corrupt file */
 #ifndef QL
 #define QL 2
@@ -207,31 +269,33 @@ void vmain(void)
 unsigned char bytes[NB];         /* whatever the file returns, in the order it is read */
 unsigned int nbytes;             /* truncated after this many bytes */
 unsigned char qkey[QL ? QL : 1];
-unsigned int chunk, fail_at;
-static unsigned int served, ncalls, failed;
+unsigned int fail_at;
+static unsigned int served, ncalls, failed, truncated;
 
 void sym_inputs(void)
 {
 #ifdef REPLAY
 #include "replay_inputs.inc"
 #else
-  SYM_ARR(bytes); SYM(nbytes); SYM_ARR(qkey); SYM(chunk); SYM(fail_at);
+  SYM_ARR(bytes); SYM(nbytes); SYM_ARR(qkey); SYM(fail_at);
 #endif
 }
 
 static int inject(void) { ++ncalls; if (fail_at && ncalls == fail_at) { failed = 1; errno = EIO; return 1; } return 0; }
 
-ssize_t vf_read(int fd, void *buf, size_t len)
+/* contract of cdb_bread (MODE 2): exactly len bytes or -1; a file that ends early is -1 */
+int cdb_bread(int fd, char *buf, int len)
 {
-  unsigned int i, n;
+  int i;
   CHECK(fd == FD, "cdb_seek reads the database descriptor");
+  CHECK(len >= 0 && len <= 32, "cdb_seek reads 8 bytes or at most 32 key bytes at a time");
   if (inject()) return -1;
-  n = chunk < len ? chunk : (unsigned int) len;
+  if ((unsigned int) len > nbytes - served) { truncated = 1; errno = EIO; return -1; }
   for (i = 0; i < 32; ++i) {
-    if (i >= n || served >= nbytes) break;
-    ((unsigned char *) buf)[i] = bytes[served++];          /* a write outside the caller's buffer is a cbmc/ASan failure */
+    if (i >= len) break;
+    buf[i] = (char) bytes[served++];                     /* a write outside the caller's buffer is a cbmc/ASan failure */
   }
-  return (ssize_t) i;
+  return 0;
 }
 
 off_t vf_lseek(int fd, off_t off, int whence)
@@ -249,7 +313,7 @@ void vmain(void)
   int r;
   unsigned int i;
   sym_inputs();
-  ASSUME(nbytes <= NB && (chunk == 3 || chunk >= 32));
+  ASSUME(nbytes <= NB);
 #ifdef VERIF_CBMC
   { static char kstore[QL ? QL : 1]; k = kstore; }
 #else
@@ -260,7 +324,7 @@ void vmain(void)
   CHECK(r == -1 || r == 0 || r == 1, "C11/C20: on any file contents cdb_seek returns -1, 0 or 1");
   if (r == 1) WITNESS("corrupt_file_can_still_answer_found");
   if (r == 0) WITNESS("absent");
-  if (r == -1 && !failed) WITNESS("truncated_file_is_an_error");
+  if (r == -1 && !failed) { CHECK(truncated, "-1 only after an I/O error or a premature end of file"); WITNESS("truncated_file_is_an_error"); }
   if (r == -1 && failed) WITNESS("io_error");
 }
 #endif
